@@ -254,6 +254,13 @@ let () =
            handed every event exactly once whatever the probes do *)
         let want = ["miss=0"; "dup=0"] in
         Mlutil.print_model want (if outs = want then "ok" else "fail:stable-listener-missed-or-duplicated-event")
+    | [_; n] when kind = "slow" ->
+        (* a listener held inside its first invocation for seconds: listener_serial and delivery_is_emit_order
+           know no time limit — no re-entry, then the queued events in emit order *)
+        let n = int_of_string n in
+        let rec range i = if i >= n then [] else i :: range (i + 1) in
+        let want = ["ser=1"; "s=" ^ String.concat "," (List.map string_of_int (range 0))] in
+        Mlutil.print_model want (if outs = want then "ok" else "fail:listener-not-serial-or-not-in-emit-order")
     | [groups; _] when kind = "sched2" ->
         (* bursts emitted while the listener is busy: still exactly the emitted events, in emit order *)
         let n = List.fold_left (fun a g -> a + int_of_string g) 0 (split ',' groups) in
